@@ -20,6 +20,7 @@ pub mod rrun {
     include!("generic.rs");
 }
 pub mod scen_batch;
+pub mod scen_codec;
 pub mod scen_core;
 
 use util::Out;
@@ -44,6 +45,7 @@ fn main() {
         "C01" => scen_core::c01(&opts, &mut out),
         "C02" => scen_core::c02(&opts, &mut out),
         "C03" => scen_batch::c03(&opts, &mut out),
+        "C15" => scen_codec::c15(&opts, &mut out),
         other => {
             eprintln!("unknown scenario {}", other);
             std::process::exit(2);
